@@ -300,7 +300,7 @@ def step_check(root, tier, history, op):
                     vio.append(viol("output-data", root, tier, history, op, "curve %d present in the output" % j, len(back_d.curves)))
                     break
                 mem = np.asarray(c.data, dtype=float)
-                out = np.asarray(back_d.curves[j].data, dtype=float)
+                out = np.asarray(list(back_d.curves)[j].data, dtype=float)
                 q = col_quantum(cfg, j) / 2 + 1e-9
                 same = mem.shape == out.shape and np.array_equal(np.isnan(mem), np.isnan(out))
                 if same and mem.size:
